@@ -49,9 +49,12 @@ Theorem c10_delta_sem : forall (K : cring) dims idx,
       delta_val K dims idx = r1 K).
 Proof. intros K dims idx. split; [apply delta_val_spec|apply delta_val_one]. Qed.
 
-(* ---- NOT proved: kept visible ---------------------------------------------------------------- *)
+(* ---- generic statements kept visible ------------------------------------------------------------ *)
 (* the network of a decoder contracts to the coset probability: [network] stands for the decoder's
-   create_tn followed by the exact contraction value of Tensor/Net.v *)
+   create_tn followed by the exact contraction value of Tensor/Net.v.  The generic form (any network
+   constructor) is not provable as such; its PLANAR instance is proved for all sizes and re-exported at the end
+   of this file (c10_planar_network_value, c10_planar_network_sweep, ...), as is the abstract factor-graph form
+   (c10_factor_graph_value). *)
 Definition c10_network_statement (K : cring) (network_value : dist K -> nat -> list bsf -> bsf -> K) : Prop :=
   forall d n gens f, Forall (fun g => length g = n + n) gens -> indep (n + n) gens ->
     network_value d n gens f = coset_prob K d n gens f.
@@ -146,3 +149,39 @@ Print Assumptions c10_planar_network_mixed_split.
 Print Assumptions c10_planar_network_mixed_split_rows.
 Print Assumptions c10_planar_stabilizers_indep.
 Print Assumptions c10_c10_planar_network.
+
+(* ---- re-exported by tools/reexport.py: statements copied from `Check`, closed by `exact` ---- *)
+From QV Require Import Tensor.FourCosetsLattice.
+Theorem c10_planar_four_cosets : forall rows cols : Z, 2 <= rows -> 2 <= cols -> four_cosets_premises (Planar.planar_n rows cols) (Code.stabs (Planar.planar_code rows cols)) (PlanarAll.lxop rows cols) (PlanarAll.lzop rows cols) /\ four_cosets_conclusion (Planar.planar_n rows cols) (Code.stabs (Planar.planar_code rows cols)) (PlanarAll.lxop rows cols) (PlanarAll.lzop rows cols).
+Proof. exact planar_four_cosets. Qed.
+Theorem c10_planar_four_cosets_c10 : forall rows cols : Z, 2 <= rows -> 2 <= cols -> let n := Planar.planar_n rows cols in let S := Code.stabs (Planar.planar_code rows cols) in forall f e : bsf, length f = (n + n)%nat -> length e = (n + n)%nat -> (forall g : bsf, In g S -> bsp e g = bsp f g) -> indep (n + n) S /\ (exists ! c : bsf, In c [f; xorv f (PlanarAll.lxop rows cols); xorv (xorv f (PlanarAll.lxop rows cols)) (PlanarAll.lzop rows cols); xorv f (PlanarAll.lzop rows cols)] /\ In (xorv e c) (span_list (n + n) S)).
+Proof. exact planar_four_cosets_c10. Qed.
+Theorem c10_planar_four_cosets_prob : forall rows cols : Z, 2 <= rows -> 2 <= cols -> let n := Planar.planar_n rows cols in let S := Code.stabs (Planar.planar_code rows cols) in let lx := PlanarAll.lxop rows cols in let lz := PlanarAll.lzop rows cols in forall (K : cring) (d : dist K) (f : bsf), length f = (n + n)%nat -> (forall L : list bsf, NoDup L -> (forall e : bsf, In e L <-> length e = (n + n)%nat /\ (forall g : bsf, In g S -> bsp e g = bsp f g)) -> sum_list K (map (prob K d n) L) = radd K (radd K (radd K (coset_prob K d n S f) (coset_prob K d n S (xorv f lx))) (coset_prob K d n S (xorv (xorv f lx) lz))) (coset_prob K d n S (xorv f lz))) /\ sum_list K (map (prob K d n) (syndrome_class (n + n) S f)) = radd K (radd K (radd K (coset_prob K d n S f) (coset_prob K d n S (xorv f lx))) (coset_prob K d n S (xorv (xorv f lx) lz))) (coset_prob K d n S (xorv f lz)).
+Proof. exact planar_four_cosets_prob. Qed.
+Theorem c10_planar_normalizer_coset : forall rows cols : Z, 2 <= rows -> 2 <= cols -> let n := Planar.planar_n rows cols in let S := Code.stabs (Planar.planar_code rows cols) in let lx := PlanarAll.lxop rows cols in let lz := PlanarAll.lzop rows cols in [lpart (n + n) lx lz false false; lpart (n + n) lx lz true false; lpart (n + n) lx lz true true; lpart (n + n) lx lz false true] = [zeros (n + n); lx; xorv lx lz; lz] /\ (forall (e : bsf) (a b : bool), length e = (n + n)%nat -> Dist.normalizer S e -> in_spanP (n + n) S (xorv e (lpart (n + n) lx lz a b)) <-> a = bsp e lz /\ b = bsp e lx).
+Proof. exact planar_normalizer_coset. Qed.
+Theorem c10_rotplanar_four_cosets : forall rows cols : Z, 3 <= rows -> 3 <= cols -> four_cosets_premises (RotPlanar.rp_n rows cols) (Code.stabs (RotPlanar.rotplanar_code rows cols)) (RotPlanarValidAll.rp_lxop rows cols) (RotPlanarValidAll.rp_lzop rows cols) /\ four_cosets_conclusion (RotPlanar.rp_n rows cols) (Code.stabs (RotPlanar.rotplanar_code rows cols)) (RotPlanarValidAll.rp_lxop rows cols) (RotPlanarValidAll.rp_lzop rows cols).
+Proof. exact rotplanar_four_cosets. Qed.
+Theorem c10_rotplanar_four_cosets_c10 : forall rows cols : Z, 3 <= rows -> 3 <= cols -> let n := RotPlanar.rp_n rows cols in let S := Code.stabs (RotPlanar.rotplanar_code rows cols) in forall f e : bsf, length f = (n + n)%nat -> length e = (n + n)%nat -> (forall g : bsf, In g S -> bsp e g = bsp f g) -> indep (n + n) S /\ (exists ! c : bsf, In c [f; xorv f (RotPlanarValidAll.rp_lxop rows cols); xorv (xorv f (RotPlanarValidAll.rp_lxop rows cols)) (RotPlanarValidAll.rp_lzop rows cols); xorv f (RotPlanarValidAll.rp_lzop rows cols)] /\ In (xorv e c) (span_list (n + n) S)).
+Proof. exact rotplanar_four_cosets_c10. Qed.
+Theorem c10_rotplanar_four_cosets_prob : forall rows cols : Z, 3 <= rows -> 3 <= cols -> let n := RotPlanar.rp_n rows cols in let S := Code.stabs (RotPlanar.rotplanar_code rows cols) in let lx := RotPlanarValidAll.rp_lxop rows cols in let lz := RotPlanarValidAll.rp_lzop rows cols in forall (K : cring) (d : dist K) (f : bsf), length f = (n + n)%nat -> (forall L : list bsf, NoDup L -> (forall e : bsf, In e L <-> length e = (n + n)%nat /\ (forall g : bsf, In g S -> bsp e g = bsp f g)) -> sum_list K (map (prob K d n) L) = radd K (radd K (radd K (coset_prob K d n S f) (coset_prob K d n S (xorv f lx))) (coset_prob K d n S (xorv (xorv f lx) lz))) (coset_prob K d n S (xorv f lz))) /\ sum_list K (map (prob K d n) (syndrome_class (n + n) S f)) = radd K (radd K (radd K (coset_prob K d n S f) (coset_prob K d n S (xorv f lx))) (coset_prob K d n S (xorv (xorv f lx) lz))) (coset_prob K d n S (xorv f lz)).
+Proof. exact rotplanar_four_cosets_prob. Qed.
+Theorem c10_toric_sixteen_cosets : forall rows cols : Z, 2 <= rows -> 2 <= cols -> let n := Toric.toric_n rows cols in let S := Code.stabs (Toric.toric_code rows cols) in let x1 := ToricAll.x1op rows cols in let x2 := ToricAll.x2op rows cols in let z1 := ToricAll.z1op rows cols in let z2 := ToricAll.z2op rows cols in forall f : bsf, length f = (n + n)%nat -> (forall (a1 a2 b1 b2 : bool) (g : bsf), In g S -> bsp (cand2 (n + n) x1 x2 z1 z2 f a1 a2 b1 b2) g = bsp f g) /\ (forall a1 a2 b1 b2 a1' a2' b1' b2' : bool, in_spanP (n + n) S (xorv (cand2 (n + n) x1 x2 z1 z2 f a1 a2 b1 b2) (cand2 (n + n) x1 x2 z1 z2 f a1' a2' b1' b2')) -> a1 = a1' /\ a2 = a2' /\ b1 = b1' /\ b2 = b2') /\ (forall e : bsf, length e = (n + n)%nat -> (forall g : bsf, In g S -> bsp e g = bsp f g) -> (exists a1 a2 b1 b2 : bool, in_spanP (n + n) S (xorv e (cand2 (n + n) x1 x2 z1 z2 f a1 a2 b1 b2)) /\ (forall a1' a2' b1' b2' : bool, in_spanP (n + n) S (xorv e (cand2 (n + n) x1 x2 z1 z2 f a1' a2' b1' b2')) -> a1' = a1 /\ a2' = a2 /\ b1' = b1 /\ b2' = b2)) /\ (forall a1 a2 b1 b2 : bool, in_spanP (n + n) S (xorv e (cand2 (n + n) x1 x2 z1 z2 f a1 a2 b1 b2)) <-> a1 = xorb (bsp z1 e) (bsp z1 f) /\ a2 = xorb (bsp z2 e) (bsp z2 f) /\ b1 = xorb (bsp x1 e) (bsp x1 f) /\ b2 = xorb (bsp x2 e) (bsp x2 f))).
+Proof. exact toric_sixteen_cosets. Qed.
+Theorem c10_toric_sixteen_prob : forall rows cols : Z, 2 <= rows -> 2 <= cols -> let n := Toric.toric_n rows cols in let S0 := Code.stabs (Toric.toric_code rows cols) in let R := ToricRankAll.toric_reduced_stabs rows cols in let x1 := ToricAll.x1op rows cols in let x2 := ToricAll.x2op rows cols in let z1 := ToricAll.z1op rows cols in let z2 := ToricAll.z2op rows cols in independent (n + n) R /\ incl R S0 /\ (forall g : bsf, In g S0 -> in_spanP (n + n) R g) /\ (forall (K : cring) (d : dist K) (f : bsf) (L : list bsf), length f = (n + n)%nat -> NoDup L -> (forall e : bsf, In e L <-> length e = (n + n)%nat /\ (forall g : bsf, In g S0 -> bsp e g = bsp f g)) -> sum_list K (map (prob K d n) L) = sum_list K (map (fun t : bsf => coset_prob K d n R (cand2 (n + n) x1 x2 z1 z2 f (nth 0 t false) (nth 1 t false) (nth 2 t false) (nth 3 t false))) (allv 4))).
+Proof. exact toric_sixteen_prob. Qed.
+Theorem c10_rottoric_sixteen_cosets : forall rows cols : Z, 2 <= rows -> rows mod 2 = 0 -> 2 <= cols -> cols mod 2 = 0 -> let n := RotToric.rt_n rows cols in let S := Code.stabs (RotToric.rottoric_code rows cols) in let x1 := RotToricValidAll.rt_x1 rows cols in let x2 := RotToricValidAll.rt_x2 rows cols in let z1 := RotToricValidAll.rt_z1 rows cols in let z2 := RotToricValidAll.rt_z2 rows cols in forall f : bsf, length f = (n + n)%nat -> (forall (a1 a2 b1 b2 : bool) (g : bsf), In g S -> bsp (cand2 (n + n) x1 x2 z1 z2 f a1 a2 b1 b2) g = bsp f g) /\ (forall a1 a2 b1 b2 a1' a2' b1' b2' : bool, in_spanP (n + n) S (xorv (cand2 (n + n) x1 x2 z1 z2 f a1 a2 b1 b2) (cand2 (n + n) x1 x2 z1 z2 f a1' a2' b1' b2')) -> a1 = a1' /\ a2 = a2' /\ b1 = b1' /\ b2 = b2') /\ (forall e : bsf, length e = (n + n)%nat -> (forall g : bsf, In g S -> bsp e g = bsp f g) -> (exists a1 a2 b1 b2 : bool, in_spanP (n + n) S (xorv e (cand2 (n + n) x1 x2 z1 z2 f a1 a2 b1 b2)) /\ (forall a1' a2' b1' b2' : bool, in_spanP (n + n) S (xorv e (cand2 (n + n) x1 x2 z1 z2 f a1' a2' b1' b2')) -> a1' = a1 /\ a2' = a2 /\ b1' = b1 /\ b2' = b2)) /\ (forall a1 a2 b1 b2 : bool, in_spanP (n + n) S (xorv e (cand2 (n + n) x1 x2 z1 z2 f a1 a2 b1 b2)) <-> a1 = xorb (bsp z1 e) (bsp z1 f) /\ a2 = xorb (bsp z2 e) (bsp z2 f) /\ b1 = xorb (bsp x1 e) (bsp x1 f) /\ b2 = xorb (bsp x2 e) (bsp x2 f))).
+Proof. exact rottoric_sixteen_cosets. Qed.
+Theorem c10_rottoric_sixteen_prob : forall rows cols : Z, 2 <= rows -> rows mod 2 = 0 -> 2 <= cols -> cols mod 2 = 0 -> let n := RotToric.rt_n rows cols in let S0 := Code.stabs (RotToric.rottoric_code rows cols) in let R := RotToricRankAll.rottoric_reduced_stabs rows cols in let x1 := RotToricValidAll.rt_x1 rows cols in let x2 := RotToricValidAll.rt_x2 rows cols in let z1 := RotToricValidAll.rt_z1 rows cols in let z2 := RotToricValidAll.rt_z2 rows cols in independent (n + n) R /\ incl R S0 /\ (forall g : bsf, In g S0 -> in_spanP (n + n) R g) /\ (forall (K : cring) (d : dist K) (f : bsf) (L : list bsf), length f = (n + n)%nat -> NoDup L -> (forall e : bsf, In e L <-> length e = (n + n)%nat /\ (forall g : bsf, In g S0 -> bsp e g = bsp f g)) -> sum_list K (map (prob K d n) L) = sum_list K (map (fun t : bsf => coset_prob K d n R (cand2 (n + n) x1 x2 z1 z2 f (nth 0 t false) (nth 1 t false) (nth 2 t false) (nth 3 t false))) (allv 4))).
+Proof. exact rottoric_sixteen_prob. Qed.
+Print Assumptions c10_planar_four_cosets.
+Print Assumptions c10_planar_four_cosets_c10.
+Print Assumptions c10_planar_four_cosets_prob.
+Print Assumptions c10_planar_normalizer_coset.
+Print Assumptions c10_rotplanar_four_cosets.
+Print Assumptions c10_rotplanar_four_cosets_c10.
+Print Assumptions c10_rotplanar_four_cosets_prob.
+Print Assumptions c10_toric_sixteen_cosets.
+Print Assumptions c10_toric_sixteen_prob.
+Print Assumptions c10_rottoric_sixteen_cosets.
+Print Assumptions c10_rottoric_sixteen_prob.
